@@ -402,8 +402,11 @@ def model_op(op):
     return op
 
 
+MODEL_OPS = 9000    # the list-based model is quadratic in the number of hidden members: longer scripts are compared on a prefix
+
+
 def model_line(info, script):
-    return 'dynenum %s %s' % (info.defs(), ';'.join(model_op(o) for o in script['ops']) or '-')
+    return 'dynenum %s %s' % (info.defs(), ';'.join(model_op(o) for o in script['ops'][:MODEL_OPS]) or '-')
 
 
 # ---- oracle: the property statement on the answers of the real classes -------------------------------------------------
@@ -592,7 +595,9 @@ def run_scripts(ctx, infos, scripts):
         ctx.cov['traces_validated_against_impl'] += 1
         if kind == 'enum':
             sc, info = a, b
-            impl = ';'.join(got)
+            impl = ';'.join(got[:MODEL_OPS])
+            if len(got) > MODEL_OPS:
+                ctx.count('operations_beyond_model_prefix_oracle_only', len(got) - MODEL_OPS)
             ctx.case('%s|%s' % (info.q, ';'.join(sc['ops'])), nontrivial=any(o[0] in 'caqN' for o in sc['ops']))
             if impl != mo:
                 it, mt = impl.split(';'), mo.split(';')
